@@ -634,53 +634,57 @@ ExecForm(st, env, f) ==
 \* ---- pipelines and chunks ("Pipeline", "Pipeline exception")
 \* Stream semantics of a pipeline of value-stream commands: the value input of form k+1 is the
 \* value output of form k; the first form reads the input of the enclosing command; the
-\* pipeline's output is that of the last form.  The forms run concurrently in Elvish; this big-step
-\* definition (forms in order) gives the outcome whenever it does not depend on the schedule:
-\*   (a) no form but the last changes a variable that existed before the pipeline, and
-\*   (b) a form k whose successor ends without having read the input either throws nothing and
-\*       changes nothing (its writes after the reader has gone raise the suppressed "reader gone"
-\*       exception at an unspecified point) or outputs nothing.
-\* Otherwise the outcome is Unspecified (cause "unspec": skipped and counted).
-\* The exception of the pipeline: none / the only one / a composite of all ("Pipeline exception").
+\* pipeline's output is that of the last form; its exception is none / the only one / a composite
+\* of all ("Pipeline exception").  The forms run concurrently in Elvish; this big-step definition
+\* (forms in order) gives the outcome whenever it does not depend on the schedule:
+\*   (a) no form but the last changes a variable that existed before the pipeline;
+\*   (b) if the last form changes such variables, the earlier forms do not depend on them
+\*       (tested by evaluating them again in the final store: same outputs and exceptions);
+\*   (c) a form whose successor never reads its input either writes nothing, or throws nothing
+\*       (its writes after the reader has gone raise the suppressed "reader gone" exception at an
+\*       unspecified point, so what follows them would be schedule-dependent).
+\* Otherwise the outcome is Unspecified (cause "unspec": skipped and counted, never judged).
 KeepsOld(before, after) == SubSeq(after.store, 1, Len(before.store)) = before.store
+ScheduleFree(facts) == \A q \in 1..(Len(facts) - 1) : facts[q + 1].read \/ facts[q].puts = 0 \/ facts[q].quiet
+SameValues(a, b) == Len(a) = Len(b) /\ \A q \in 1..Len(a) : ValEq(a[q], b[q])
 
-RECURSIVE ExecStages(_, _, _, _, _, _, _)
-\* input: value input of stage i; excs: causes of stages 1..i-1; prev: [puts, pure] of stage i-1
-ExecStages(st, env, fs, i, input, excs, first) ==
+RECURSIVE PrefixRun(_, _, _, _, _, _, _)
+\* forms i..upto again: -> [out: output of form upto, excs]  (or [skip |-> TRUE])
+PrefixRun(st, env, fs, i, upto, input, excs) ==
+  LET r == ExecForm([st EXCEPT !.inp = input, !.rd = FALSE], env, fs[i]) IN
+  IF Skip(r.exc) THEN [skip |-> TRUE]
+  ELSE IF i = upto THEN [skip |-> FALSE, out |-> r.out, excs |-> Append(excs, r.exc)]
+  ELSE PrefixRun(r.st, r.env, fs, i + 1, upto, r.out, Append(excs, r.exc))
+
+RECURSIVE ExecStages(_, _, _, _, _, _, _, _)
+\* st0: state before the pipeline; input: value input of form i; excs / facts: of forms 1..i-1
+\* facts[k] == [puts: values written, quiet: threw nothing, read: read its input]
+ExecStages(st0, st, env, fs, i, input, excs, facts) ==
   LET r == ExecForm([st EXCEPT !.inp = input, !.rd = FALSE], env, fs[i])
       last == i = Len(fs)
-      pure == KeepsOld(st, r.st)
-      \* the enclosing input is consumed by the first stage only
-      firstAfter == IF i = 1 THEN [inp |-> r.st.inp, rd |-> st.rd \/ r.st.rd] ELSE first
+      facts2 == Append(facts, [puts |-> Len(r.out), quiet |-> r.exc.c = "ok", read |-> r.st.rd])
+      excs2 == Append(excs, r.exc)
   IN IF Skip(r.exc) THEN r
-     ELSE IF ~last /\ ~pure THEN Throw(r.st, env, CUnspec)                                  \* (a)
-     ELSE IF last THEN
-            LET all == Append(excs, r.exc)
-                bad == {q \in 1..Len(all) : all[q].c # "ok"}
-                exc == IF bad = {} THEN COk
-                       ELSE IF Cardinality(bad) = 1 THEN all[CHOOSE q \in bad : TRUE]
-                       ELSE CPipeline(all)
-            IN [r EXCEPT !.exc = exc, !.st.inp = firstAfter.inp, !.st.rd = firstAfter.rd]
-     ELSE LET nx == ExecStages(r.st, r.env, fs, i + 1, r.out, Append(excs, r.exc), firstAfter) IN
-          nx
+     ELSE IF ~last THEN
+            IF ~KeepsOld(st0, r.st) THEN Throw(r.st, env, CUnspec)                          \* (a)
+            ELSE ExecStages(st0, r.st, r.env, fs, i + 1, r.out, excs2, facts2)
+     ELSE IF ~ScheduleFree(facts2) THEN Throw(r.st, env, CUnspec)                           \* (c)
+     ELSE IF ~KeepsOld(st0, r.st) /\
+             (LET again == PrefixRun(r.st, env, fs, 1, i - 1, st0.inp, <<>>) IN
+              again.skip \/ ~SameValues(again.out, input) \/ again.excs # excs)
+          THEN Throw(r.st, env, CUnspec)                                                    \* (b)
+     ELSE LET bad == {q \in 1..Len(excs2) : excs2[q].c # "ok"}
+              exc == IF bad = {} THEN COk
+                     ELSE IF Cardinality(bad) = 1 THEN excs2[CHOOSE q \in bad : TRUE]
+                     ELSE CPipeline(excs2)
+          IN [r EXCEPT !.exc = exc, !.vs = <<VBool(facts2[1].read)>>]     \* vs: did the first form read?
 
-\* (b) is checked after the fact on the recorded per-stage facts; to keep one pass, each stage
-\* result is examined by its successor through `rdflags`: see ExecPipe.
-RECURSIVE StageFacts(_, _, _, _, _)
-\* facts[k] == [puts, quiet, read]: number of values stage k wrote, stage k threw nothing, stage k read its input
-StageFacts(st, env, fs, i, input) ==
-  LET r == ExecForm([st EXCEPT !.inp = input, !.rd = FALSE], env, fs[i]) IN
-  IF Skip(r.exc) \/ i = Len(fs) THEN <<[puts |-> Len(r.out), quiet |-> r.exc.c = "ok", read |-> r.st.rd]>>
-  ELSE <<[puts |-> Len(r.out), quiet |-> r.exc.c = "ok", read |-> r.st.rd]>> \o StageFacts(r.st, r.env, fs, i + 1, r.out)
-
-ScheduleFree(facts) == \A q \in 1..(Len(facts) - 1) : facts[q + 1].read \/ facts[q].puts = 0 \/ facts[q].quiet
-
+\* After the pipeline the enclosing input is what the first form left of it.
 ExecPipe(st, env, p) ==
   IF Len(p.fs) = 1 THEN ExecForm(st, env, p.fs[1])
-  ELSE LET r == ExecStages(st, env, p.fs, 1, st.inp, <<>>, [inp |-> st.inp, rd |-> st.rd]) IN
+  ELSE LET r == ExecStages(st, st, env, p.fs, 1, st.inp, <<>>, <<>>) IN
        IF Skip(r.exc) THEN r
-       ELSE IF ~ScheduleFree(StageFacts(st, env, p.fs, 1, st.inp)) THEN Throw(r.st, env, CUnspec)   \* (b)
-       ELSE r
+       ELSE [r EXCEPT !.vs = <<>>, !.st.inp = IF r.vs[1].b THEN <<>> ELSE st.inp, !.st.rd = st.rd \/ r.vs[1].b]
 
 ExecChunk(st, env, ps, i) ==
   IF i > Len(ps) THEN Done(st, env)
